@@ -67,6 +67,7 @@ func progSnippet(r *proto.Rand, n int) snippet {
 		{"go-native-strings", "", "cs# := make(chan string)\ngo h.SendS(cs#, WW, 2)\ngo h.SendS(cs#, h.Itoa(h.Input()), CC)\nx#, y# := <-cs#, <-cs#\nif x# > y# { x#, y# = y#, x# }\nprintln(\"gss#\", x#, y#)\n"},
 		{"defer-native", "func D#(c chan int) {\n\tdefer h.Send(c, KK)\n\tdefer h.SendMul(c, h.Input(), CC)\n\th.Send(c, 1)\n}\n", "dc# := make(chan int, 4)\nD#(dc#)\nprintln(\"dn#\", <-dc#, <-dc#, <-dc#)\n"},
 		{"go-fast-path-native", "", "go h.Slen(WW)\ngo h.Repeat(WW, CC)\nprintln(\"gf#\", h.Slen(WW))\n"},
+		{"callbacks", "", "t# := 0\nh.Each(CC, func(i int) { t# += i * h.Input() })\nn# := 0\nh.Until(func() bool { n#++; return n# > CC })\nprintln(\"cb#\", t#, n#, h.Apply(func(x int) int { return x + t# }, KK))\n"},
 		{"goroutine", "", "ch# := make(chan int)\ngo func(d int) { ch# <- d * KK }(h.Input())\nprintln(\"g#\", <-ch#)\n"},
 		{"select", "", "sa# := make(chan int, 1)\nsa# <- h.Input()\nselect {\ncase v := <-sa#:\n\tprintln(\"sel\", v+KK)\ndefault:\n\tprintln(\"none\")\n}\n"},
 	}
@@ -127,6 +128,7 @@ func tplSnippet(r *proto.Rand, n int) snippet {
 		{"slice", "{% sl# := []int{KK, v} %}{% sl# = append(sl#, v*2) %}{{ len(sl#) }} {{ sl#[2] }}{% for _, e := range sl# %}{{ e }},{% end %}\n"},
 		{"go-block", "{%%\n  y# := 0\n  for i := 0; i < CC; i++ { y# += i * v }\n%%}{{ y# }}\n"},
 		{"text", "plain text KK &amp; more\n"},
+		{"callbacks", "{% t# := 0 %}{% each(CC, func(i int) { t# = t# + i*v }) %}{% n# := 0 %}{% until(func() bool { n# = n# + 1; return n# > CC }) %}{{ t# }} {{ n# }} {{ apply(func(x int) int { return x + t# }, KK) }}\n"},
 		{"go-native-recd", "{% d# := make(chan int) %}{% go recd(d#, CC, v) %}{% go recd(d#, 1, v+KK) %}{% _ = <-d# %}{% _ = <-d# %}\n"},
 		{"go-native-send", "{% c# := make(chan int, 4) %}{% go send(c#, v) %}{% send(c#, KK) %}{% go sendSum(c#, v, CC, 1) %}{% t# := <-c# %}{% t# = t# + <-c# %}{% t# = t# + <-c# %}{{ t# }}\n"},
 		{"go-native-loop", "{% e# := make(chan int) %}{% for i := 0; i < CC; i++ %}{% go recTag(e#, s, i, v) %}{% end %}{% for i := 0; i < CC; i++ %}{% _ = <-e# %}{% end %}\n"},
